@@ -25,7 +25,8 @@ MANIFEST = {
              "consecutive regular periods tile the day line (start(s+1)=end(s)+1, start<=middle<=end), shift keywords land on the documented "
              "period, a span enumerates exactly start+i*step up to end, len/iter/index agree, reversal is an involution, shifting maps elements, "
              "resolve replaces exactly the contextual ends, the operators p>>q / p<<q (None or a contextual end on either side) build the "
-             "forward span p..q / the backward span q..p. The model is tied to the code on every run: closed-form fragments and day tables are "
+             "forward span p..q / the backward span q..p, get_encompassing_span returns min of starts / max of ends over arguments in any "
+             "order. The model is tied to the code on every run: closed-form fragments and day tables are "
              "regenerated from dates.py by the translator (a changed formula re-checks the proofs), everything else by exact line-by-line "
              "correspondence with irispie (quick: every day 1890-2110 + boundary years, every regular period of those years; thorough: every "
              "day and period of years 1-9999), plus an independent datetime/range oracle on the implementation that supplies the replay."),
@@ -75,6 +76,21 @@ def parse_endpoint(s):
     if a == "ce":
         return D.end + int(b)
     return CLS[a](int(b))
+
+
+def parse_enc_arg(w):
+    """an argument of get_encompassing_span: `-` None; `A:p,q` an object with start_date/end_date attributes (a resolved
+    span when both are given and of one frequency, else a ResolutionContext); `S:p,-,q` a sequence of periods / None"""
+    if w == "-":
+        return None
+    if w.startswith("A:"):
+        a, b = [parse_endpoint(x) for x in w[2:].split(",")]
+        if a is not None and b is not None and type(a) is type(b) and (a.serial + b.serial) % 2 == 0:
+            return ir.Span(a, b, 1 if a.serial <= b.serial else -1)
+        return D.ResolutionContext(a, b)
+    body = w[2:]
+    items = [parse_endpoint(x) for x in body.split(",")] if body else []
+    return tuple(items) if len(items) % 2 else list(items)
 
 
 def observe(s) -> str:
@@ -211,6 +227,12 @@ def impl_eval(line: str) -> str:
             return "[" + ",".join(show_period(p) for p in r) + "]"
         if op in ("span", "span>>", "span<<"):
             return impl_span_line(ws)
+        if op == "enc":
+            sp, a, b = D.get_encompassing_span(*[parse_enc_arg(w) for w in ws[1:]])
+            alt = ir.Span.encompassing(*[parse_enc_arg(w) for w in ws[1:]])
+            if observe(alt) != observe(sp):
+                return "Span.encompassing differs from get_encompassing_span"
+            return f"{observe(sp)} {'-' if a is None else show_period(a)} {'-' if b is None else show_period(b)}"
     except Exception as e:
         return err_kind(e)
     return "bad-op"
@@ -403,6 +425,30 @@ def gen_span_lines(ctx: Ctx):
             for st in (-2, -1, 1, 2, 3):
                 lines.append(f"pfu {f}:{base[f]} {f}:{base[f] + d} {st}")
     lines.append("pfu Q:1 M:5 1")
+    # get_encompassing_span / Span.encompassing: objects with start/end attributes, sequences in any order with None
+    # elements, None arguments, empty sequences, mixed frequencies within one sequence (ignored) and across arguments (rejected)
+    k = len(lines)
+    for _ in range(ctx.n(500, 8000)):
+        f = rng.choice(["Y", "H", "Q", "M", "D", "I"])
+        args = []
+        for _ in range(rng.randint(0, 4)):
+            kind = rng.weighted([("seq", 5), ("attrs", 3), ("none", 1), ("foreign", 1)])
+            g = f if kind != "foreign" else rng.choice([x for x in ["Y", "Q", "M", "I", "D"] if x != f])
+
+            def per():
+                return f"{g}:{base[g] + rng.randint(-15, 15)}"
+            if kind == "none":
+                args.append("-")
+            elif kind == "attrs":
+                args.append("A:" + (per() if rng.chance(0.85) else "-") + "," + (per() if rng.chance(0.85) else "-"))
+            else:
+                items = [per() if rng.chance(0.85) else "-" for _ in range(rng.randint(0, 5))]
+                if items and rng.chance(0.08):
+                    h = rng.choice([x for x in ["Y", "Q", "M", "I", "D"] if x != g])
+                    items[rng.randint(0, len(items) - 1)] = f"{h}:{base[h]}"
+                args.append("S:" + ",".join(items))
+        lines.append("enc " + " ".join(args))
+    ctx.count("encompassing_lines", len(lines) - k)
     return lines
 
 
@@ -544,11 +590,48 @@ def pyrange_list(a, b, st):
     return out
 
 
+def oracle_encompassing(ctx: Ctx, line, ws):
+    """the encompassing span starts at or before and ends at or after every period of every argument (sequences in any
+    order); only arguments of one frequency are judged (the others are the rejection cases of the correspondence stream)"""
+    ctx.evaluations += 1
+    case = {"line": line}
+    lo, hi, letters = [], [], set()
+    for w in ws[1:]:
+        if w == "-":
+            continue
+        items = [x for x in w[2:].split(",") if x and x != "-"]
+        letters |= {x.split(":")[0] for x in items}
+        sers = [int(x.split(":")[1]) for x in items]
+        if w.startswith("A:"):
+            a, b = w[2:].split(",")
+            if a != "-": lo.append(int(a.split(":")[1]))
+            if b != "-": hi.append(int(b.split(":")[1]))
+        elif sers:
+            lo.append(min(sers)); hi.append(max(sers))
+    if len(letters) > 1:
+        return
+    try:
+        sp, a, b = D.get_encompassing_span(*[parse_enc_arg(w) for w in ws[1:]])
+        got = (None if a is None else a.serial, None if b is None else b.serial)
+        want = (min(lo) if lo else None, max(hi) if hi else None)
+        ok = got == want and (a is None or sp.start == a) and (b is None or sp.end == b) and sp.step == 1
+        ok = ok and (a is None or LETTER[type(a)] in letters) and (b is None or LETTER[type(b)] in letters)
+        if not ok:
+            ctx.fail("encompassing-span", case, f"start/end {got}, expected {want}; span {sp!r}")
+        elif lo and hi:
+            ctx.nontriv(("enc", len(ws) - 1, want[0] <= want[1]))
+    except Exception as e:
+        ctx.fail("encompassing-span", case, repr(e))
+
+
 def oracle_spans(ctx: Ctx, lines):
     """replay every span line on the implementation, checking after every op that len / iter / index agree with the
     plain enumeration of start, start+step, ... and that reversal / shifting do what the property says"""
     for line in lines:
         ws = line.split()
+        if ws[0] == "enc":
+            oracle_encompassing(ctx, line, ws)
+            continue
         if ws[0] not in ("span", "span>>", "span<<"):
             continue
         ctx.evaluations += 1
@@ -688,7 +771,7 @@ def search(ctx: Ctx, seeds):
     ctx.tier = "quick"   # bounded: quick enumeration without thinning (~1 min)
     oracle_calendar(ctx, budget_scale=10)
     oracle_arith(ctx, gen_cmp_lines(ctx))
-    oracle_spans(ctx, gen_span_lines(ctx) + [c for c in seeds if isinstance(c, str) and c.startswith("span")])
+    oracle_spans(ctx, gen_span_lines(ctx) + [c for c in seeds if isinstance(c, str) and (c.startswith("span") or c.startswith("enc"))])
 
 
 def replay(ctx: Ctx, payload):
